@@ -23,6 +23,15 @@ ARQ = ("Modelled, not verified: f64 rounding (exact integer lengths, multiples o
        "unbounded recursion, adequacy is a theorem under the arena invariant (depth < size by pigeonhole); stack depth on extremely deep trees. ")
 
 CLAIMS = {
+ "C08": dict(
+   text="Kernel-checked theorems, for every tree shape and every assignment of lengths: the contributions the fast algorithm adds into the triangular vector, written by "
+        "structural recursion on the rose tree with the per-node leaf-distance caches, are keyed by every pair of leaves exactly once and each equals the textbook path length "
+        "(deepest node containing both leaves, two legs); the per-node cache holds exactly the leaves below the node with their distances. PARTIAL: the arena-level fold "
+        "(reversed level order, per-slot caches, keyed accumulation) is tied to that recursion by executing both, plus the recursive algorithm's model, on every case and "
+        "comparing each with the crate for EXACT equality (dyadic lengths), not by a loop-invariant proof. Oracles on the real code (stream B: decimal lengths, 1e-9): both "
+        "algorithms against an independent path walk (two-sided), against each other and against get_distance, sorted taxa, edge counts when no length is present, "
+        "refusal of missing lengths by the recursive algorithm.",
+   note=NOTE + EXACT + "accurate::NaiveSum is treated as f64 addition.", technique="Lean 4 proof that the fast algorithm's contributions are the path lengths, each pair once (rose level) + exact differential execution of three model computations", ref="5 C08"),
  "C14": dict(
    text="Kernel-checked theorems on the character-level model of the Phylip writer and the three parsing entry points (str::lines, split_whitespace, usize::from_str "
         "transcribed; entries through a codec): strictness — a text accepted by the strict parser has exactly as many rows as its declared size, every row exactly the "
